@@ -17,7 +17,7 @@ RULE = (
     "reversed argument order, sources given as arguments, as a glob in the TOML and as an explicit shuffled list, "
     "PYTHONHASHSEED in {0, 1, 12345, random}, ninja -j1 / -j4 / -j16 with random per-step delays injected by the shims (the "
     "distinct step completion orders actually observed are counted from the event logs), build directories of different "
-    "depth with spaces in the path, different working directories, relative and absolute source paths.  sha256 of the font "
+    "depth with spaces in the path and through a symbolic link, different working directories, relative and absolute source paths.  sha256 of the font "
     "(and of the glyph map and feature file) must be equal inside a class.  In-process multiplier: the same _generate_color_font "
     "inputs (C01/C02/C03 generators + shared outlines whose every use has its own fill and opacity) built in fresh interpreters under 4 hash seeds.  Non-trivial = class with >= 3 sources or shared shapes; "
     "distinct = hash of the class inputs."
@@ -76,6 +76,14 @@ def run_cli(case):
             for k, s_ in enumerate(ordered):
                 s_["name"] = ("b/" if k < (len(ordered) + 1) // 2 else "a/") + s_["name"]
             res["tags"].append("two-source-dirs")
+        if two_dirs and case["i"] % 8 == 7 and len(srcs) >= 2:
+            # an ambiguous class: one file name present in both directories with different content.  Whatever the build
+            # does with it (today: refuse), it must do the same for every spelling and order of the arguments
+            a_files = [s_ for s_ in srcs if s_["name"].startswith("a/")]
+            b_files = [s_ for s_ in srcs if s_["name"].startswith("b/")]
+            if a_files and b_files:
+                srcs.append({"name": "b/" + a_files[0]["name"][2:], "svg": b_files[0]["svg"], "codepoints": a_files[0]["codepoints"]})
+                res["tags"].append("same-name-in-two-dirs")
         cli.write_sources(src_dir, srcs)
         names = sorted(s["name"] for s in srcs)
         base_flags = ["--color_format", fmt, "--family", "Det Test", "--output_file", "Font.ttf"]
@@ -87,7 +95,7 @@ def run_cli(case):
         rnd_seed = str(r.randint(2, 4_000_000_000))
         variants.append(dict(label="sorted-args j1", args=names, cwd=src_dir, bdir=root / "b0", hs="0", j=1, delay=None))
         variants.append(dict(label="reversed-args j16 delays hashseed1", args=names[::-1], cwd=src_dir, bdir=root / "b1", hs="1", j=16, delay=150))
-        variants.append(dict(label="shuffled absolute paths, other cwd, deep build dir with spaces, random hashseed", args=[str(src_dir / n) for n in shuffled], cwd=root, bdir=root / "deep dir" / "with space" / "b2", hs=rnd_seed, j=4, delay=250))
+        variants.append(dict(label="shuffled absolute paths, other cwd, build dir with spaces reached through a symlink, random hashseed", args=[str(src_dir / n) for n in shuffled], cwd=root, bdir=root / "deep dir" / "with space" / "b2", hs=rnd_seed, j=4, delay=250))
         toml_glob = root / "glob.toml"
         toml_glob.write_text(cli.toml_text({}, srcs=["src/a/*.svg", "src/b/*.svg"] if two_dirs else ["src/*.svg"]))
         variants.append(dict(label="glob in toml, hashseed 12345", args=[str(toml_glob)], cwd=root, bdir=root / "b3", hs="12345", j=16, delay=100))
@@ -99,6 +107,11 @@ def run_cli(case):
             variants.append(dict(label="relative paths from inside one source directory (../b/x.svg), j16", args=rel_a, cwd=src_dir / "a", bdir=root / "b5", hs="0", j=16, delay=300))
         else:
             variants.append(dict(label="sorted-args j16 other delay seed", args=names, cwd=src_dir, bdir=root / "b5", hs="0", j=16, delay=300))
+        # the "deep dir" of variant 2 is a symbolic link to a directory at another depth: lexical and physical paths of
+        # the build directory differ
+        (root / "real" / "nested" / "deeper").mkdir(parents=True, exist_ok=True)
+        if not (root / "deep dir").exists():
+            os.symlink(root / "real" / "nested" / "deeper", root / "deep dir")
         for vi, v in enumerate(variants):
             ev = root / f"ev{vi}.jsonl"
             env = cli.env_for(events=ev, delay_ms=v["delay"], delay_seed=case["i"] * 10 + vi, ninja_j=v["j"], hashseed=v["hs"])
@@ -124,6 +137,8 @@ def run_cli(case):
         if failed and hashes:
             for label, rc, out in failed:
                 res["violations"].append({"what": f"variant '{label}' failed (exit {rc}) while the same inputs build in other variants", "format": fmt, "output": out})
+        elif failed and "same-name-in-two-dirs" in res["tags"]:
+            c["ambiguous_classes_refused_in_every_variant"] = 1
         elif failed:
             c["classes_not_buildable_in_any_variant"] = 1  # e.g. a legal palette conflict: nothing to compare
         ref = hashes[0][1] if hashes else None
